@@ -5,6 +5,7 @@ import (
 	"errors"
 	"fmt"
 	"strconv"
+	"strings"
 	"testing"
 	"testing/synctest"
 
@@ -30,7 +31,7 @@ type c05result struct {
 
 func oneC05(t *testing.T, x Exp, pid string, order string) (msg string) {
 	synctest.Test(t, func(t *testing.T) {
-		rec := &recorder{fail: order == "encoder-fails"}
+		rec := &recorder{fail: strings.HasSuffix(order, "encoder-fails")}
 		ew := auditevent.NewAuditEventWriter(rec)
 		logins := make(chan common.RemoteUserLogin) // unbuffered, like cmd/namedpipe.go
 		mp := metrics.NewPrometheusMetricsProviderForRegisterer(prometheus.NewRegistry())
@@ -217,6 +218,28 @@ func oneC05(t *testing.T, x Exp, pid string, order string) (msg string) {
 				fail("a login was forwarded although the event could not be written")
 			default:
 			}
+		case "cancelled-before+encoder-fails":
+			// both at once: the write fails while the per-call context is already cancelled and a receiver is
+			// ready. The error is still returned (cancellation excuses only the hand-off) and nothing is forwarded.
+			cancel()
+			startReceiver()
+			synctest.Wait()
+			process()
+			synctest.Wait()
+			if !returned {
+				fail("did not return when the event could not be written under a cancelled context")
+			} else if !hasKeyword(x.Line) {
+				if ret != nil {
+					fail("a line without a recognised keyword returned %v", ret)
+				}
+			} else if ret == nil || !errors.Is(ret, errInjected) {
+				fail("write failure under an already cancelled context returned as %v, want an error wrapping the injected one", ret)
+			}
+			select {
+			case <-got:
+				fail("a login was forwarded although the event could not be written")
+			default:
+			}
 		}
 		// release whatever is still blocked so the bubble can end
 		cancel()
@@ -238,7 +261,7 @@ func runC05(t *testing.T, run *mc.Run) int {
 	if !run.Thorough() {
 		s.users, s.addrs, s.keytypes = s.users[:2], s.addrs[:2], s.keytypes[:2]
 	}
-	orders := []string{"receiver-first", "receiver-late", "never-cancel", "cancelled-before", "encoder-fails"}
+	orders := []string{"receiver-first", "receiver-late", "never-cancel", "cancelled-before", "encoder-fails", "cancelled-before+encoder-fails"}
 	var sm sampler
 	n, withLogin := 0, 0
 	complete := true
@@ -308,7 +331,7 @@ func runC05(t *testing.T, run *mc.Run) int {
 		}
 	})
 	cov := mc.Coverage{Level: "model_checking", States: len(sm.forms), Transitions: n, Traces: n, Evaluations: n, Distinct: withLogin, Exhaustive: complete, Samples: sm.samples,
-		Rule:  "for every line of the (reduced) C06 product x pid tokens {1,25007,4194304,007}: every environment order {receiver ready before the line; receiver appears after the call blocked; no receiver, context cancelled while blocked; context cancelled before the line; encoder fails} delivered to the real ProcessSshdLogEntry in a synctest bubble (quiescence = every goroutine durably blocked), unbuffered logins channel as in cmd/namedpipe.go. states = distinct (form, order) cells; distinct_nontrivial = executions of accepted-authentication lines",
+		Rule:  "for every line of the (reduced) C06 product x pid tokens {1,25007,4194304,007}: every environment order {receiver ready before the line; receiver appears after the call blocked; no receiver, context cancelled while blocked; context cancelled before the line; encoder fails; encoder fails under an already cancelled context} delivered to the real ProcessSshdLogEntry in a synctest bubble (quiescence = every goroutine durably blocked), unbuffered logins channel as in cmd/namedpipe.go. states = distinct (form, order) cells; distinct_nontrivial = executions of accepted-authentication lines",
 		Extra: map[string]any{"cells": sm.forms, "orders": orders}}
 	cov.Assumptions = []string{"testing/synctest durable-blocking semantics", "select with both cancellation and a ready receiver is left unjudged (the statement says 'unless its context is cancelled')"}
 	return run.Finish(cov)
